@@ -232,11 +232,7 @@ fn one(report: &mut Report, pre: &[Spec], steps: &[Step], ordinal: u64) {
         ),
         Ok((bad, rendering)) => {
             let h = fnv(rendering.as_bytes());
-            let before = report.outcomes.len();
-            report.outcome(format!("{h:016x}"));
-            if report.outcomes.len() > before {
-                report.states += 1;
-            }
+                        report.outcome(format!("{h:016x}"));
             for (oracle, witness, detail) in bad {
                 if oracle.starts_with("MACHINERY") {
                     report.machinery_error(format!("{oracle}: {detail}"));
